@@ -11,10 +11,10 @@ package main
 // sequences of requests (values produced by the operating system).
 
 import (
-	"os"
 	"fmt"
 	"go/token"
 	"go/types"
+	"os"
 	"sort"
 	"strings"
 
@@ -73,7 +73,7 @@ func runC01(c *Ctx, pr *PropertyRun) {
 		c03Shape(c, acc, san, c.P)
 	}
 	fsFaultRules(c, pr, "C01")
-	c01Structure(c, pr)
+	c01Structure(c, pr, "C01")
 }
 
 // comparesValues: f tests a against b with ==, !=, strings.HasPrefix,
@@ -102,9 +102,9 @@ func comparesValues(f *ssa.Function, a, b ssa.Value, dependsOn func(v, target ss
 }
 
 // c01Structure: two structural necessary conditions of COPY/MOVE.
-func c01Structure(c *Ctx, pr *PropertyRun) {
+func c01Structure(c *Ctx, pr *PropertyRun, prop string) {
 	p := c.P
-	r := NewRule("C01", "C01.copy-move-structure", "a Walk callback that performs file-system effects addresses them through its own path parameter; Copy and Move compare source and destination before any destructive call (E1/E4)")
+	r := NewRule(prop, prop+".copy-move-structure", "a Walk callback that performs file-system effects addresses them through its own path parameter; Copy and Move compare source and destination before any destructive call (E1/E4)")
 	pr.Rules = append(pr.Rules, r)
 	lfs := p.NamedType(pkgWebdav, "LocalFileSystem")
 	var dependsOn func(v ssa.Value, target ssa.Value, depth int) bool
@@ -147,15 +147,22 @@ func c01Structure(c *Ctx, pr *PropertyRun) {
 			if n := calleeName(cc); n != "path/filepath.Walk" && n != "path/filepath.WalkDir" {
 				return
 			}
-			cb := cc.Args[1]
-			if ct, ok := cb.(*ssa.ChangeType); ok {
-				cb = ct.X
+			// the callback: a closure written here, or the closure a
+			// factory of the module returns
+			var cf *ssa.Function
+			for _, g := range p.ModFns {
+				if g.Parent() == nil || len(g.Blocks) == 0 {
+					continue
+				}
+				for _, wc := range walkContexts(c, g) {
+					if wc.site == site {
+						cf = g
+					}
+				}
 			}
-			mc, ok := cb.(*ssa.MakeClosure)
-			if !ok {
+			if cf == nil {
 				return
 			}
-			cf := mc.Fn.(*ssa.Function)
 			var effects []ssa.CallInstruction
 			eachCall(cf, func(s2 ssa.CallInstruction) {
 				if len(fsPathArgs(s2.Common())) > 0 {
@@ -261,6 +268,9 @@ func c01Structure(c *Ctx, pr *PropertyRun) {
 	// a copy is a resource of its own: a link shares the stored bytes, so a
 	// later PUT to the source or to the copy (which rewrites in place) shows
 	// through at the other name
+	if prop != "C01" {
+		return
+	}
 	lk := NewRule("C01", "C01.no-links", "the file server never makes a hard or symbolic link: the result of COPY is independent of its source from then on (E7)")
 	pr.Rules = append(pr.Rules, lk)
 	// ... as long as stored files are rewritten in place: some call opens
